@@ -31,6 +31,6 @@ for d in sorted(glob.glob(os.path.join(ROOT, 'seeded', '*'))):
     rows.append((meta['id'], meta['property'], verdict, meta.get('needs_to_manifest', '')))
     print(meta['id'], verdict)
 with open(os.path.join(ROOT, 'seeded', 'RESULTS.md'), 'w') as f:
-    f.write('# Seeded changes vs. checks\n\nEach change was written by an independent sub-agent that saw only the property text; it compiles, passes the 214 baseline tests, and its demonstration fails with the change and passes without (confirmed, see meta.json).\n\n| id | property | outcome of bin/check | needs, to manifest |\n|---|---|---|---|\n')
+    f.write('# Seeded changes vs. checks\n\nEach change was written by an independent sub-agent that saw only the property text; it compiles, passes the 214 baseline tests, and its demonstration fails with the change and passes without (confirmed, see meta.json). Ids ending in `-revfixN` are not independent: they are the reverses of `fix:` commits, kept to show that a repaired defect is reported again if it returns.\n\n| id | property | outcome of bin/check | needs, to manifest |\n|---|---|---|---|\n')
     for r in rows:
         f.write('| %s | %s | %s | %s |\n' % r)
